@@ -89,21 +89,21 @@ CHECKS = {
 
 # session 2: deciding evaluations added in front of the techniques above (DESIGN.md section 13); the older shape rules are advisory read-backs once these decide
 SESSION2 = {
-    'C01': 'shared evaluation C10.L (E6p): parse_script evaluated on layout variants of programs covering every block form; absolute expectations for the loop / branch lowering (a `continue` in a while re-tests the condition, a for-loop continue advances the index) stated from the language definition',
+    'C01': 'rule C01.P (E9r, sa/progsim.py): parse_script and then execute_script with the statement loop, _script_function, evaluate_expression and the library functions called - the whole pipeline - evaluated by the abstract interpreter on 25 hand-written and 90 (quick) / 400 (thorough) grammar-generated structured programs x initial globals of every plain value type; return value, log sequence and final globals compared with a structured big-step reading of the source text (sa/barefront.py trees; the known while/continue finding identified exactly by a second reading); shared evaluation C10.L (E6p): parse_script evaluated on layout variants of programs covering every block form; absolute expectations for the loop / branch lowering (a `continue` in a while re-tests the condition, a for-loop continue advances the index) stated from the language definition',
     'C02': "rule C02.C: parse_expression's AST evaluated by the abstract interpreter on an enumerated list of concrete expression texts (precedence pairs of every operator, unary chains, groups, calls, literals of every kind incl. plus-signed and hex numbers, trailing text); the returned models are compared node by node with the trees of an independently written precedence-climbing front-end (sa/barefront.py), error positions with the first unmatched character; the regex-automaton and table rules remain for the token classes",
-    'C08': 'E6s: the statement loop evaluated on curated models with duplicate labels in one scope and in different scopes under the schedule (taken, taken, not taken): the first definition in the executing scope is the target every time (lru_cache / dict memoisation modelled, unknown decorators undecided); counter shape read-back shared with C09',
+    'C08': 'shared rule C01.P (E9r whole parsed programs: a function statement binds when it executes, also again under another body; return; jumps stay in their list); E6s: the statement loop evaluated on curated models with duplicate labels in one scope and in different scopes under the schedule (taken, taken, not taken): the first definition in the executing scope is the target every time (lru_cache / dict memoisation modelled, unknown decorators undecided); counter shape read-back shared with C09',
     'C03': 'E6e evaluation of evaluate_expression on every ordered pair of 14 sample operands of every value type x 6 arithmetic operators and unary - / ! against the language definition (C03.T), undefined callee with effectful arguments; shared evaluations: value_string on numbers (C13), datetime arithmetic / ISO text under fixed-offset zones (C16, E6d), relational operators on 32x32 concrete values (C11.S)',
-    'C04': 'execute_script evaluated on an empty script with caller globals binding a library name to a host function / to null (C04.I); parse_script evaluated on layout variants of function headers (C10.L, E6p)',
+    'C04': 'shared rule C01.P (E9r whole-program evaluation: locals / globals, parameter binding, functions as values, a local hiding a global in call position, tabs in parameter lists); execute_script evaluated on an empty script with caller globals binding a library name to a host function / to null (C04.I); parse_script evaluated on layout variants of function headers (C10.L, E6p)',
     'C05': 'shared evaluations C03.T (operator table on all operand type pairs: no host exception) and C17.U (url helpers); escape analysis extended by implicit __str__/__repr__ calls when a caught exception is formatted and by with-statements (contextlib.suppress decided, swallowing context managers undecided); dataParseCSV evaluated on ragged texts with csv.reader / DictReader as exact host models (C05.K)',
     'C06': 'shared C10.L literal program (line-separator-like characters, tabs and blank runs inside strings): error line / column of a fault placed after them; BareScriptParserError.__init__ evaluated on lines of 0..400 characters (incl. blanks at the ends) with the fault at every column: stored attributes and caret position in the formatted message (C06.A); blank continuation parts join to concrete text (lone backslash at end of input)',
     'C07': 'rules C07.S/T concrete clause: parse_script evaluated (E6p) on programs with numeric / string literal conditions, branches that all end in break / continue / return and functions inside open blocks, expression models built by the independent front-end, result validated against the schema text and each scope\'s label / jump sets; shared evaluations: parse_script on layout variants (C10.L, E6p) and lint_script on lowered structured code and on the shipped includes (C18.R, E6n): no label warning',
-    'C09': 'E6s evaluation of the statement loop on 31028 small models under a limit (counts compared; shared C08.E) and of 21 include scenarios incl. the limit hit inside an included script; filter_data / add_calculated_field / join_data evaluated with a counting expression oracle, completing and aborted by the limit (run\'s options carry start + evaluations); handler fate analysis (conditional re-raise); the D / W / R read-backs are advisory for loop helpers once the evaluation decides',
+    'C09': 'rule C09.B (E9r): whole programs with script functions invoked directly, recursively, through variables / systemPartial and as callbacks of arraySort / arrayIndexOf evaluated unlimited (N statements) and under the limits 1..N+2 and 0 - exact abort point L + 1, log prefix, reproduction for L >= N, N at least the statements of the structured reading, one options object reused after a completed / failed / aborted run; E6s evaluation of the statement loop on 31028 small models under a limit (counts compared; shared C08.E) and of 21 include scenarios incl. the limit hit inside an included script; filter_data / add_calculated_field / join_data evaluated with a counting expression oracle, completing and aborted by the limit (run\'s options carry start + evaluations); handler fate analysis (conditional re-raise); the D / W / R read-backs are advisory for loop helpers once the evaluation decides',
     'C10': 'E6p (sa/parsesim.py): parse_script evaluated on concrete text - 686 (quick) layout variants of two programs covering every statement form, generated from the language definition (sa/barefront.py): blanks added / removed wherever allowed, tabs, CRLF, chunkings, blank / comment lines at every position, continuation at every blank incl. across chunks - each must give the model of the canonical layout (C10.L)',
-    'C11': 'E6e: the six relational operators evaluated on every ordered pair of 32 concrete values (nested arrays / objects, [1] vs [true]) against the sign of the reference order; arraySort with a comparison function returning fractions',
+    'C11': 'mathMin / mathMax evaluated with the repository comparison on one argument of every plain type (the result is that argument) and on ordered pairs; E6e: the six relational operators evaluated on every ordered pair of 32 concrete values (nested arrays / objects, [1] vs [true]) against the sign of the reference order; arraySort with a comparison function returning fractions',
     'C12': 'value_args_validate evaluated on an integer parameter with numbers spelled both ways; bit operators as integer-only sinks; shared evaluations that run every number as host int and as float: C15.R (E6c library reference models), C16.M (datetimeNew), C14.R (jsonStringify indent), C13.D (value_string on 5 and 5.0 ...)',
-    'C13': 'value_string evaluated on 44 sample numbers (ints, integral / fractional floats, exponent forms, booleans, non-finite) - text converts back to the number, integral numbers print as integer digits, never raises - and value_parse_number on 23 concrete texts (printed forms, NaN / infinity spellings, overflowing digit strings, malformed text); host str()/float()/regex semantics on concrete values',
-    'C14': 'E6l: jsonStringify (no indent, indent 2, indent 3.0) and jsonParse evaluated on 190 JSON values whose strings / keys contain . 0 , ] } " \\ / newline, control and non-BMP characters, trailing backslashes and newlines - valid JSON denoting the value, sorted keys, no fraction on integral numbers, no collisions, parse inverts (C14.R); json encoder / json.loads as exact host models on concrete values',
-    'C15': 'E6c (sa/libref.py): 42 array / object / string / regexEscape / urlEncode functions evaluated through the repository\'s own value_args_validate on ~5500 argument lists (every container / string template x indices -2..len+2 as float and as host int; wrong type in each position, missing, surplus) against reference list / dict / str models written from the $doc lines: result, identity vs freshness (shallow), post-call state of every argument, documented failure value (C15.R)',
+    'C13': 'parse_expression(value_string(x)) evaluated on 45 non-negative numbers incl. integral doubles around 2**53 (C13.L); value_string evaluated on 44 sample numbers (ints, integral / fractional floats, exponent forms, booleans, non-finite) - text converts back to the number, integral numbers print as integer digits, never raises - and value_parse_number on 23 concrete texts (printed forms, NaN / infinity spellings, overflowing digit strings, malformed text); host str()/float()/regex semantics on concrete values',
+    'C14': 'E6l: jsonStringify (no indent, indent 2, indent 3.0) and jsonParse evaluated on 190 JSON values whose strings / keys contain . 0 , ] } " \\ / newline, control and non-BMP characters, trailing backslashes and newlines - valid JSON denoting the value, sorted keys, no fraction on integral numbers, no collisions, parse inverts (C14.R); strings with an escaped quote before ,] / ,}; one container occurring several times; json encoder / json.loads (incl. parse_int / parse_float / object_hook callbacks) as exact host models on concrete values',
+    'C15': 'call history: a fresh container result changed by the caller, the same call again must give a new object with the documented contents (memoisation); E6c (sa/libref.py): 42 array / object / string / regexEscape / urlEncode functions evaluated through the repository\'s own value_args_validate on ~5500 argument lists (every container / string template x indices -2..len+2 as float and as host int; wrong type in each position, missing, surplus) against reference list / dict / str models written from the $doc lines: result, identity vs freshness (shallow), post-call state of every argument, documented failure value (C15.R)',
     'C16': 'E6d (sa/hostdt.py, sa/dtsim.py): value_normalize_datetime, value_string, value_parse_datetime, the getters and datetime + / - evaluated on naive / aware / date values with sub-millisecond parts under four (six thorough) fixed-offset local zones, the datetime module as an exact host model (C16.N/I/G/E); datetimeNew evaluated on 1704 (8456 thorough) component lists, int and float spellings, against proleptic-Gregorian ordinal arithmetic (C16.M). Zones with DST rules (America/New_York, Australia/Lord_Howe; thorough also Europe/London, Pacific/Chatham) are taken from the host zoneinfo database when it is installed, with sample datetimes around every offset change of 2024 that exist exactly once; astimezone() without argument returns a fixed-offset tzinfo as CPython does',
     'C17': 'url_file_relative evaluated on 70 (including file, reference) pairs (posixpath / PurePosixPath / urljoin as exact host models), parse_script evaluated on quoted / system include lines (E6p), _fetch_include evaluated on 7 requests with importlib.resources as an opaque host object',
     'C18': 'E6n (sa/lintsim.py): lint_script evaluated on 10 jump-level models (user / duplicate / dangling labels, duplicate functions / arguments, names equal to schema member names, empty names, calls at every expression position), a structured program lowered by the evaluated parse_script and the shipped includes, three times each (again; other iteration order of unordered collections): never raises, model unchanged, deterministic, label / function / argument / unused / pointless warnings = facts of the model (C18.R)',
